@@ -6,19 +6,19 @@ import (
 	"pgregory.net/rapid"
 )
 
-var c08StepKinds = []string{"Sprint", "SprintBytes", "Sprintf", "Sprintf", "Sprintf", "SprintfBytes", "Reflect", "Safe", "Iface", "Concat", "Concat",
+var c08StepKinds = []string{"Sprint", "SprintBytes", "Sprintf", "Sprintf", "Sprintf", "SprintfBytes", "Reflect", "ReflectField", "ReflectIfaceField", "Safe", "Iface", "Concat", "Concat",
 	"Join", "Join1", "JoinToSB", "JoinToPrinter", "SBPrint", "SBPrintf", "PrintSB", "PrintPSB", "PrinterPrint", "PrinterPrintf",
 	"Slice", "Array", "ISlice", "Map", "IMap", "Struct", "StructPlus", "PStruct", "StructIface", "SharpV"}
 
 func genC08(rt *rapid.T) *C08Spec {
 	vc := &valConfig{maxDepth: 1, noPointers: true}
-	fc := &fmtConfig{noTp: true}
+	fc := &fmtConfig{noTp: true, noHugeNumbers: true}
 	s := &C08Spec{R0: vc.genPrintSpec(rt, 1, false)}
 	n := rapid.IntRange(1, 6).Draw(rt, "depth")
 	for i := 0; i < n; i++ {
 		st := &C08Step{K: c08StepKinds[rapid.IntRange(0, len(c08StepKinds)-1).Draw(rt, "step")]}
 		switch st.K {
-		case "Sprintf", "SprintfBytes", "Reflect", "Safe", "Iface", "SBPrintf", "PrintSB", "PrintPSB", "PrinterPrintf":
+		case "Sprintf", "SprintfBytes", "Reflect", "ReflectField", "ReflectIfaceField", "Safe", "Iface", "SBPrintf", "PrintSB", "PrintPSB", "PrinterPrintf":
 			st.Dir = fc.genDirective(rt)
 			if (st.K == "PrintSB" || st.K == "PrintPSB") && string(st.Dir.Verb) == "w" {
 				st.Dir.Verb = B("v") // a builder is not an error: %w is a bad verb for it
